@@ -394,6 +394,7 @@ def name_variants(shape, pos):
     if not is_spec(node):
         out += [("class_path", "class_path"), ("init_args", "init_args")]
     out += [("dotted", FK + ".k")]
+    out += [("append-mark", FK + "+")]  # `key+` is the append spelling of list-typed keys; on a key nobody defines it is as foreign as the key
     return out
 
 
